@@ -1306,7 +1306,12 @@ impl<'a> GeneratorState<'a> {
                 let mut lx = self.whitespaces_regex.replace_all(&l, " ");
                 if lx.len() > 256 {
                     let lxx = lx.to_mut();
-                    lxx.truncate(256);
+                    // Not in the middle of a character
+                    let mut n = 256;
+                    while !lxx.is_char_boundary(n) {
+                        n -= 1;
+                    }
+                    lxx.truncate(n);
                     lxx.push_str("...\n");
                     self.comment(&lxx)?; // Should include the '\n'
                 } else {
